@@ -26,8 +26,8 @@ ACCEPTED_SENSITIVE: dict[tuple[str, str], str] = {
 
 # nondeterminism sources reviewed: (function, call text prefix) -> where the value may flow
 ACCEPTED_RANDOM = {
-    ("sigma.filters.SigmaFilter.apply_on_rule", "random.choices"):
-        "10 random letters of the '_filt_' prefix: flows only into detection-map keys and the rewritten condition string of the same rule",
+    ("sigma.filters.SigmaFilter", "random.choices"):   # any method of the class: the draw may live in a helper of apply_on_rule
+        "10 random letters of the '_filt_' prefix: flows only into detection-map keys and the rewritten condition string of the same rule (C11.R5 interprets the application)",
     ("sigma.processing.transformations.condition.AddConditionTransformation", "random.choice"):
         "10 random letters of the '_cond_' detection name when none is configured: flows only into the detection-map key and the condition string",
 }
@@ -196,7 +196,7 @@ def r4_random_names_not_captured(ctx) -> None:
         r.ok("C20.R4", fa.qual, "a colliding draw is repeated: the result does not depend on which prefix was drawn", fa.loc)
     # the drawn names do start with '_'
     import ast as _ast
-    for fn, const, node in (("sigma.filters.SigmaFilter.apply_on_rule", "_filt_", prog.func("sigma.filters.SigmaFilter.apply_on_rule").node),
+    for fn, const, node in (("sigma.filters.SigmaFilter.apply_on_rule", "_filt_", prog.cls("sigma.filters.SigmaFilter").node),
                             ("sigma.processing.transformations.condition.AddConditionTransformation", "_cond_", prog.cls("sigma.processing.transformations.condition.AddConditionTransformation").node)):
         ok_ = False
         for c in (x for x in _ast.walk(node) if isinstance(x, _ast.Call) and call_name(x).startswith("random.")):
@@ -265,7 +265,7 @@ def r2_random_sources(ctx) -> None:
             d = call_name(c)
             loc = f"{fi.module.relpath}:{c.lineno}"
             if d.startswith(RANDOM_CALLS) or d in RANDOM_CALLS:
-                key = next((k for k in ACCEPTED_RANDOM if k[0] == q and d.startswith(k[1])), None)
+                key = next((k for k in ACCEPTED_RANDOM if (k[0] == q or q.startswith(k[0] + ".")) and d.startswith(k[1])), None)
                 if key:
                     r.ok("C20.R2", q, f"{d}(...) — {ACCEPTED_RANDOM[key]}", loc)
                 else:
